@@ -183,18 +183,35 @@ def rule_reset(fx, rep, search, cone):
                     out.setdefault((adt, fld), set()).add(nm)
         return out
     ws, wr = writes(cone), writes(rcone)
+
+    def unconditional_in_reset(adt, fld):
+        """some write of adt.fld in the reset cone lies on every path of its function, or only under loop-iteration guards"""
+        for nm in rcone:
+            b = fx.bodies[nm]
+            for (bb, idx, a, f, kind, place) in b.field_writes():
+                if a != adt or f != fld:
+                    continue
+                if b.must_pass(0, [bb], b.return_blocks()):
+                    return True
+                conds = guard_conditions(b, bb, expand_named=True)
+                if conds and all(find_calls(e, "Iterator>::next", "range::next", "::next") for (e, pol, w) in conds):
+                    return True
+        return False
     for (adt, fld), who in sorted(ws.items()):
         if adt.endswith("Tablebase"):
             continue
         n += 1
         good = (adt, fld) in wr
+        why = "never writes it"
+        if good and not unconditional_in_reset(adt, fld):
+            good, why = False, "writes it only under a condition (not on every path)"
         rep.obligation(good)
         rep.sample({"rule": "C12-RESET", "field": f"{adt.split('::')[-1]}.{fld}", "written_in_search_by": sorted(norm(x).split("::")[-1] for x in who)[:4], "reset": good})
         if not good:
             ok = False
             wb = fx.bodies[sorted(who)[0]]
             rep.violation("C12-RESET", f"C12-RESET/{adt}/{fld}",
-                          f"the search can write {adt.split('::')[-1]}.{fld} (in {sorted(norm(x) for x in who)[:3]}) but PersistentState::reset never writes it: state survives ucinewgame",
+                          f"the search can write {adt.split('::')[-1]}.{fld} (in {sorted(norm(x) for x in who)[:3]}) but PersistentState::reset {why}: state survives ucinewgame",
                           {"fn": wb.name, "file": wb.file, "line": wb.line})
     # PersistentState's own fields: each non-tablebase field must have its reset called
     for adt, fname in sorted(held.items()):
@@ -359,6 +376,8 @@ SM = "src/engine/search/mod.rs"
 MUTANTS = [
     {"name": "TT reset forgets generation", "expect": "C12-RESET",
      "edits": [(TT, "        self.generation = 0;\n        self.occupied = 0;\n    }\n\n    pub fn resize", "        self.occupied = 0;\n    }\n\n    pub fn resize")]},
+    {"name": "table entries cleared only when hashfull > 0 (seed C12-1)", "expect": "C12-RESET",
+     "edits": [(TT, "        for i in 0..self.data.len() {\n            self.data[i] = None;\n        }\n\n        self.generation = 0;", "        if self.occupancy() > 0 {\n            self.data.fill(None);\n        }\n\n        self.generation = 0;")]},
     {"name": "history table not reset on ucinewgame", "expect": "C12-RESET",
      "edits": [(SM, "        self.tt.reset();\n        self.history_table.reset();", "        self.tt.reset();")]},
     {"name": "history table gains a field only search writes", "expect": "C12-RESET",
